@@ -449,6 +449,24 @@ func main() {
 	} else if s, ok := strLit(be.Y); !ok || s != "" {
 		die("RoundTrip: guard is not `… != \"\"`")
 	}
+	// the outgoing request is built afresh from the compressed buffer (so that Body, ContentLength AND GetBody all describe the
+	// compressed bytes): `http.NewRequestWithContext(<ctx>, <method>, <url>, buf)`
+	builtFromBuf := false
+	ast.Inspect(rt, func(n ast.Node) bool {
+		call, ok := n.(*ast.CallExpr)
+		if !ok {
+			return true
+		}
+		if se, ok := call.Fun.(*ast.SelectorExpr); ok && se.Sel.Name == "NewRequestWithContext" && len(call.Args) == 4 {
+			if id, ok := call.Args[3].(*ast.Ident); ok && id.Name == "buf" {
+				builtFromBuf = true
+			}
+		}
+		return true
+	})
+	if !builtFromBuf {
+		die("RoundTrip: the outgoing request is no longer built with http.NewRequestWithContext(…, buf)")
+	}
 	hdrConst := ""
 	for _, d := range parse(filepath.Join(repo, "config/confighttp/confighttp.go")).Decls {
 		gd, ok := d.(*ast.GenDecl)
